@@ -55,6 +55,25 @@ def reindex(case, rng, t):
     if case['X_dev'] is not None: relabel(case['X_dev'], case['y_dev'], t % 3)
 
 
+def continuous_tie_cases(rng, n):
+    """ContinuousCarver: an ordinal feature whose modalities are NOT in alphabetical order, two NON-adjacent modalities with exactly the same target values (equal
+    means): they may stay apart because they are not neighbours in the feature's order"""
+    out = []
+    for t in range(n):
+        names = list(zoo.NAMES[:4]); rng.shuffle(names); r = rng.choice([4, 6, 8])
+        lv = [[1.0, 2.0, 3.0], [6.0, 7.0, 8.5], [11.0, 12.0, 13.5]]; a, b = rng.sample(range(3), 2)
+        pattern = [lv[a], lv[b], lv[a], lv[3 - a - b]]          # positions 0 and 2 tie exactly
+        xs, ys = [], []
+        for nm, vals in zip(names, pattern):
+            xs += [nm] * (len(vals) * r); ys += vals * r
+        idx = list(range(len(xs))); rng.shuffle(idx)
+        X = pd.DataFrame({'f': pd.Series([xs[i] for i in idx], dtype=object)}); y = pd.Series([ys[i] for i in idx])
+        case = dict(X=X, y=y, X_dev=None, y_dev=None, quantitative=[], qualitative=[], ordinal=['f'], values_orders={'f': list(names)}, target='continuous', origin=dict(kind='continuous_tie', names=names))
+        cfg = dict(min_freq=0.04, min_freq_mod=rng.choice([None, 0.05]), max_n_mod=rng.choice([3, 4]), sort_by='tschuprowt', dropna=True, output_dtype=rng.choice(['float', 'str']))
+        out.append((case, cfg))
+    return out
+
+
 def random_cases(rng, n):
     out = []
     for _ in range(n):
@@ -174,7 +193,7 @@ def one(arg):
 def run_battery(ctx, props):
     n_tab = 700 if ctx.tier == 'quick' else 6000
     n_rnd = 150 if ctx.tier == 'quick' else 1500
-    cases = table_cases(ctx.rng, n_tab, ctx.tier) + random_cases(ctx.rng, n_rnd)
+    cases = table_cases(ctx.rng, n_tab, ctx.tier) + continuous_tie_cases(ctx.rng, n_tab // 50) + random_cases(ctx.rng, n_rnd)
     ctx.bound('carver.fit', '%d single-feature count-table frames (2-5 modalities, per-modality (n0,n1) from %r, optional missing-value rows, optional dev table, thresholds '
               'placed on observed group frequencies, label names whose order differs from alphabetical order) and %d random multi-feature frames; seeded' % (n_tab, PAIRS, n_rnd))
     allrecs = zoo.pmap(one, cases)
